@@ -2,11 +2,11 @@
 from .common import pipeline_for, combined
 
 LEVEL = 'other'
-RULES = ('S-OWN', 'M1', 'R03.a', 'R03.b', 'R03.d', 'R03.e', 'R04.d', 'R01.b', 'R02.d', 'R03.c', 'R14.t', 'R01.c')
+RULES = ('S-OWN', 'M1', 'R03.a', 'R03.b', 'R03.d', 'R03.e', 'R04.d', 'R01.b', 'R02.d', 'R03.c', 'R14.t', 'R01.c', 'R10.s', 'R10.d')
 
 
 def run(prog, rec, tier):
-    combined(prog, rec, tier, RULES, driver=('layout', 'reader', 'sequence'), pipe=True, monitor=True, spawn=True, modes=('isolation',),
+    combined(prog, rec, tier, RULES, driver=('layout', 'reader', 'sequence'), pipe=True, monitor=True, spawn=True, modes=('isolation', 'steps'),
                  explanation='Ownership typestate of every chunk buffer as the abstract value of the token field, per role, '
                  'closed under an inferred rely/guarantee pair; exactly-once flow of entries to the cipher step; '
                  'cursor summary; hand-back only when consumed; thread i <-> buffer i <-> stream i for T=1..16.')
